@@ -62,7 +62,11 @@ def execute(ctx, case):
     with monitors.oracle_scope_ctx():
         s = derive.build(case["pos"], case["neg"], case["ep"], case["en"], case["sc"], case["ec"], case.get("via", "ctor"), case.get("_seed", 0))
     fn = score_analysis.roc if case["pkg"] else RC.roc
-    A = fn(s, nb_points=case["nb_points"], x_axis=case["x_axis"], **case["kw"])  # judged by M-roc
+    kw_roc = derive.call_form(case["_seed"], dict(x_axis=case["x_axis"]))  # x_axis="fpr" is the documented default: it may be left out
+    if case["nb_points"] == 100 and case["_seed"] % 2:
+        A = fn(s, **kw_roc, **case["kw"])  # nb_points=100 is roc()'s documented default; M-roc knows it
+    else:
+        A = fn(s, nb_points=gen.int_form(case["_seed"], case["nb_points"]), **kw_roc, **case["kw"])  # judged by M-roc
     if case.get("_seed", 0) % 3 == 0:
         # a history across curves: evaluate (another view of) the object at the operating thresholds of the curve just returned;
         # M-roc re-inspects the kept curve A on every later call
